@@ -2,6 +2,8 @@
 
 pub mod epoch;
 pub mod votes;
+pub mod pool_driver;
+pub mod pool_model;
 
 use std::sync::OnceLock;
 
